@@ -8,6 +8,7 @@ import (
 	"testing"
 
 	"github.com/EliCDavis/polyform/modeling"
+	"github.com/EliCDavis/vector/vector3"
 	"pgregory.net/rapid"
 
 	"verifharness/internal/mops"
@@ -33,7 +34,45 @@ func TestMain(m *testing.M) {
 
 type Op = mops.Op
 
-type Case struct{ Ops []Op }
+type Case struct {
+	Ops []Op
+	// LargeN > 0 (sub-check large-history): the pool starts with a mesh of LargeN > 65 536 vertices
+	// built from a recipe (not stored); fast paths, chunked loops and 16-bit tables only exist there
+	LargeN    int `json:",omitempty"`
+	LargeTopo int `json:",omitempty"`
+}
+
+// largeMesh: n vertices with a position and a scalar attribute, a few primitives at both ends.
+func largeMesh(n int, topo modeling.Topology) modeling.Mesh {
+	pos := make([]vector3.Float64, n)
+	w := make([]float64, n)
+	for i := range pos {
+		pos[i] = vector3.New(float64(i%251)/8, float64((i/251)%251)/8, float64(i/63001)/8+float64(i%7)/64)
+		w[i] = float64(i)
+	}
+	idx := []int{0, 1, 2, 2, 1, 3, n/2 + 1, n / 2, n/2 + 5, n - 3, n - 2, n - 1, 0, n - 1, n / 2}
+	if topo == modeling.PointTopology {
+		idx = []int{n - 1, 0, n / 2, 3, n - 2}
+	}
+	return modeling.NewMesh(topo, idx).SetFloat3Attribute(modeling.PositionAttribute, pos).SetFloat1Attribute("w", w)
+}
+
+func genLarge(t *rapid.T) Case {
+	c := Case{LargeN: 65536 + rapid.IntRange(1, 3000).Draw(t, "over")}
+	if rapid.IntRange(0, 3).Draw(t, "points") == 0 {
+		c.LargeTopo = int(modeling.PointTopology)
+	}
+	c.Ops = rapid.SliceOfN(rapid.Custom(mops.Gen), 3, 10).Draw(t, "ops")
+	for i := range c.Ops {
+		if c.Ops[i].K == "fresh" || c.Ops[i].K == "prim" {
+			continue
+		}
+		if rapid.IntRange(0, 2).Draw(t, "onLarge") != 0 {
+			c.Ops[i].A = 0 // slot 0 holds the large mesh
+		}
+	}
+	return c
+}
 
 func genCase(t *rapid.T) Case {
 	min := rapid.IntRange(3, 30).Draw(t, "minSteps")
@@ -75,6 +114,13 @@ type live struct {
 
 func runCase(c Case, o *vh.Obs) *vh.Failure {
 	var pool []live
+	maxVerts, maxIdx, maxPool := 3000, 9000, 8
+	if c.LargeN > 65536 && c.LargeN <= 70000 {
+		m := largeMesh(c.LargeN, modeling.Topology(c.LargeTopo))
+		pool = append(pool, live{m: m, snap: oracle.Snapshot(m)})
+		maxVerts, maxIdx, maxPool = 3*c.LargeN, 9*c.LargeN, 4
+		o.Class("large/base-above-65536-vertices")
+	}
 	derivedFrom := map[int]int{} // pool-entry creation step -> number of derivations taken from it
 	nontrivial := false
 	for step, op := range c.Ops {
@@ -110,7 +156,7 @@ func runCase(c Case, o *vh.Obs) *vh.Failure {
 			o.Class("export-after-derive")
 		}
 		for _, m := range res {
-			if m.AttributeLength() > 3000 || m.Indices().Len() > 9000 {
+			if m.AttributeLength() > maxVerts || m.Indices().Len() > maxIdx {
 				continue
 			}
 			var snap string
@@ -118,8 +164,10 @@ func runCase(c Case, o *vh.Obs) *vh.Failure {
 				continue // a malformed result cannot be snapshotted; C02 judges it
 			}
 			l := live{m: m, snap: snap, step: step + 1, derived: !isSource}
-			if len(pool) < 8 {
+			if len(pool) < maxPool {
 				pool = append(pool, l)
+			} else if c.LargeN > 0 {
+				pool[1+(op.A+op.B)%(maxPool-1)] = l // the large base stays
 			} else {
 				pool[(op.A+op.B)%8] = l
 			}
@@ -144,6 +192,7 @@ func runCase(c Case, o *vh.Obs) *vh.Failure {
 }
 
 func TestC01(t *testing.T) {
+	vh.Drive(t, vh.Spec[Case]{Name: "large-history", Quick: 32, Thorough: 1500, Gen: genLarge, Run: runCase})
 	vh.Drive(t, vh.Spec[Case]{Name: "history", Quick: 48000, Thorough: 1600000, Gen: genCase, Run: runCase,
 		Sample: func(c Case) any {
 			var ks []string
